@@ -471,6 +471,14 @@ impl ReqPlan {
         }
         for (n, v, append) in &self.headers {
             let name = attohttpc::header::HeaderName::from_bytes(n.as_bytes()).expect("generated header name");
+            // (no draw) some values arrive as a typed `HeaderValue` marked sensitive, as callers do for tokens:
+            // the mark is about logging, the field goes out like any other, on every hop
+            if v.len() % 4 == 1 {
+                let mut hv = attohttpc::header::HeaderValue::from_bytes(v).expect("generated header value");
+                hv.set_sensitive(true);
+                rb = if *append { rb.header_append(name, hv) } else { rb.header(name, hv) };
+                continue;
+            }
             rb = match (*append, alt) {
                 (true, false) => rb.header_append(name, &v[..]),
                 (false, false) => rb.header(name, &v[..]),
